@@ -1040,10 +1040,12 @@ def instruction(ctx):
             ))
             operands.append(oper)
 
-        ctx_opening_bracket = ctx.save()
         if opening_bracket(ctx, maybe=True):
+            ctx_opening_bracket = ctx.save()
+            ctx_opening_bracket.pos -= 1
             oper = code(ctx, break_on_closing_bracket=True)
-            oper.ctx = ctx_opening_bracket
+            # The block is where its opening bracket is
+            oper.ctx_start = ctx_opening_bracket
             operands.append(oper)
 
         if ctx.pos < len(ctx.code) and ctx.code[ctx.pos].strip() not in ("", ";"):
@@ -1111,14 +1113,14 @@ def code(ctx, break_on_closing_bracket=False):
 
     while not ctx.eof():
         ctx.skip_whitespace()
-        ctx_start = ctx.save()
+        ctx_insn_start = ctx.save()
         if break_on_closing_bracket and closing_bracket(ctx, maybe=True):
             break
 
         insn = (label | assignment | instruction | word_list)(ctx, report=(
             reports.critical,
             "invalid-insn",
-            (ctx_start, ctx_start, "Could not parse instruction starting from here")
+            (ctx_insn_start, ctx_insn_start, "Could not parse instruction starting from here")
         ))
         insns.append(insn)
 
